@@ -19,6 +19,42 @@ func c10(c *Ctx) {
 	r.Floor("C10.R1", 2)
 	r.Floor("C10.R2", 2)
 	checkStickyLoadFailure(p, r, "C10.R4")
+	// R3: a symbol that was found is reported: under the err==nil continuation of the by-name symbol lookup the exported
+	// lookup functions have no further way to fail (an extra plausibility check can only reject symbols that exist)
+	for _, name := range []string{"FindFuncByName", "FindVarByName"} {
+		f := p.Fn(uxPkg, name)
+		if f == nil {
+			r.Und("C10.R3", "unexports2."+name, "", "exported lookup not found")
+			continue
+		}
+		ei := errIndex(f.Signature)
+		eachInstr(f, func(i ssa.Instruction) {
+			cl, ok := i.(*ssa.Call)
+			if !ok {
+				return
+			}
+			cal := staticCallee(cl.Common())
+			if cal == nil || relPkg(cal) != uxPkg || cal.Signature.Results().Len() != 2 || errIndex(cal.Signature) != 1 {
+				return
+			}
+			if _, isPtr := cal.Signature.Results().At(0).Type().Underlying().(*types.Pointer); !isPtr {
+				return
+			}
+			okAll, n := true, 0
+			for _, ret := range returnsOf(f) {
+				if !errNilGuarded(ret.Block(), cl) {
+					continue
+				}
+				n++
+				if ei >= 0 && !isNilConst(retResult(ret, ei)) {
+					okAll = false
+				}
+			}
+			// and nothing under that continuation can panic or call a rejecting helper that returns an error which is tested
+			r.Check(okAll && n > 0, "C10.R3", "a found symbol is reported by "+shortName(f), p.Pos(posOf(cl)), "every return under the lookup's err==nil continuation has a nil error",
+				"after the symbol was found the lookup can still fail: an additional check rejects symbols that exist (for instance instantiated generic functions, whose runtime name differs from the symbol-table name)")
+		})
+	}
 	r.Floor("C10.R3", 6)
 	fns := p.FuncsIn(uxPkg)
 	// once initialiser
